@@ -549,14 +549,14 @@ theorem gen_joinIntent_matches_model (n : Node) (x : Name) (m : Member) (lt w : 
 
 theorem gen_localState_shape :
     localStateStatusLoop = [
-      -- Go (LocalState): for name, member := range d.serf.members { pp.StatusLTimes[name] = member.statusLTime }   [pp=v0 name=v1 member=v2]
-      "for v1, v2 := range recv.serf.members",
-      "v0.StatusLTimes[v1] = v2.statusLTime"] ∧
+      -- Go (LocalState): for name, member := range d.serf.members { pp.StatusLTimes[name] = member.statusLTime }   [name=w0 member=w1 pp=w2: numbered per fragment]
+      "for w0, w1 := range recv.serf.members",
+      "w2.StatusLTimes[w0] = w1.statusLTime"] ∧
     localStateStatusLoopUnconditional = true ∧
     localStateLeftLoop = [
-      -- Go: for _, member := range d.serf.leftMembers { pp.LeftMembers = append(pp.LeftMembers, member.Name) }   [member=v3]
-      "for _, v3 := range recv.serf.leftMembers",
-      "v0.LeftMembers = append(v0.LeftMembers, v3.Name)"] ∧
+      -- Go: for _, member := range d.serf.leftMembers { pp.LeftMembers = append(pp.LeftMembers, member.Name) }   [member=w0 pp=w1]
+      "for _, w0 := range recv.serf.leftMembers",
+      "w1.LeftMembers = append(w1.LeftMembers, w0.Name)"] ∧
     localStateLeftLoopUnconditional = true := ⟨rfl, rfl, rfl, rfl⟩
 
 /-- every member (Left ones included) is reported with its status time, every left-list entry by name -/
